@@ -5,6 +5,7 @@ package main
 import (
 	"fmt"
 	"os"
+	"time"
 	"go/constant"
 	"go/token"
 	"go/types"
@@ -59,6 +60,9 @@ type Engine struct {
 	windows    map[int]*windowInfo
 	tableRegions []*Region
 	eagerPrune   bool
+	deadline     time.Time
+	feasN        int
+	inlinedExt   map[string]bool
 	anyReturn    bool
 	usedIntr   map[string]bool
 	usedLemmas map[string]bool
@@ -72,6 +76,7 @@ type State struct {
 	subst   map[string]*Term
 	names   map[string]Value // source-level local names (from DebugRef)
 	cuts    map[string]bool
+	visits  map[*ssa.BasicBlock]int // symbolic forks per block on this path (loops without invariant)
 	weak    map[string]bool
 	inLoop  map[*ssa.BasicBlock]bool
 	ghost   map[string]Value
@@ -96,6 +101,10 @@ func (s *State) fork() *State {
 	n.cuts = make(map[string]bool, len(s.cuts))
 	for k := range s.cuts {
 		n.cuts[k] = true
+	}
+	n.visits = make(map[*ssa.BasicBlock]int, len(s.visits))
+	for k, v := range s.visits {
+		n.visits[k] = v
 	}
 	n.weak = make(map[string]bool, len(s.weak))
 	for k := range s.weak {
@@ -711,6 +720,26 @@ func (e *Engine) bitOp(op token.Token, a, b *Term, typ types.Type) *Term {
 	})
 }
 
+// multipleOf: t is provably a multiple of p (p a power of two).
+func multipleOf(t *Term, p *big.Int) bool {
+	switch t.Op {
+	case "const":
+		return new(big.Int).Mod(t.Val, p).Sign() == 0
+	case "poly":
+		for _, e := range t.P.t {
+			if new(big.Int).Mod(e.c, p).Sign() != 0 {
+				return false
+			}
+		}
+		return true
+	case "mod":
+		return new(big.Int).Mod(t.Val, p).Sign() == 0 && multipleOf(t.Args[0], p)
+	case "ite":
+		return multipleOf(t.Args[1], p) && multipleOf(t.Args[2], p)
+	}
+	return false
+}
+
 func disjointOr(a, b *Term) (*Term, bool) {
 	_, bh := rangeOf(b)
 	bl, _ := rangeOf(b)
@@ -723,8 +752,7 @@ func disjointOr(a, b *Term) (*Term, bool) {
 	if al == nil || al.Sign() < 0 {
 		return nil, false
 	}
-	q := polyOf(a).DropMultiples(p)
-	if c, ok := q.IsConst(); ok && c.Sign() == 0 {
+	if multipleOf(a, p) {
 		return mkAdd(a, b), true
 	}
 	return nil, false
@@ -772,7 +800,27 @@ func bitUFFacts(ts []*Term) []*Term {
 
 func (e *Engine) shiftOp(op token.Token, a, b *Term, typ types.Type) *Term {
 	if !b.IsConst() {
-		e.fail("shift by non-constant amount")
+		// symbolic shift amount with a small known range: case analysis
+		lo, hi := rangeOf(b)
+		if b.Op == "ite" || lo == nil || hi == nil || lo.Sign() < 0 || hi.Cmp(big.NewInt(64)) > 0 {
+			if lo == nil || hi == nil || lo.Sign() < 0 || hi.Cmp(big.NewInt(255)) > 0 {
+				e.fail("shift by non-constant amount without small range")
+			}
+		}
+		top := hi.Int64()
+		if top > 64 {
+			top = 64
+		}
+		var res *Term
+		for k := top; k >= lo.Int64(); k-- {
+			v := e.shiftOp(op, a, mkInt64(k), typ)
+			if res == nil {
+				res = v
+			} else {
+				res = mkIte(mkEq(b, mkInt64(k)), v, res)
+			}
+		}
+		return res
 	}
 	k := uint(b.Val.Uint64())
 	w := bitWidth(typ)
@@ -1054,6 +1102,10 @@ func (e *Engine) execFrom(st *State, fr *Frame, b *ssa.BasicBlock, prev *ssa.Bas
 		if e.steps > e.maxSteps {
 			e.fail("step budget exceeded in %s", fr.fn)
 		}
+		if e.steps%256 == 0 && !e.deadline.IsZero() && time.Now().After(e.deadline) {
+			e.deadline = time.Time{}
+			e.fail("time budget for symbolic execution exceeded in %s", fr.fn)
+		}
 		if idx == 0 {
 			// loop header handling
 			if ord, isHdr := fr.loopHdr[b]; isHdr && fr.contract != nil && fr.topLevel {
@@ -1123,7 +1175,9 @@ func (e *Engine) execFrom(st *State, fr *Frame, b *ssa.BasicBlock, prev *ssa.Bas
 				st.assume(c)
 				st2.assume(mkNot(c))
 				var out []Exit
-				if e.eagerPrune {
+				st.visits[b]++
+				st2.visits[b] = st.visits[b]
+				if e.eagerPrune || st.visits[b] > 2 {
 					if e.unsatisfiable(st.hyps) {
 						st.hyps = append(st.hyps, tFalse)
 					}
@@ -1583,6 +1637,11 @@ func (e *Engine) guarded(st *State, f func() []Exit) (out []Exit) {
 }
 
 func (e *Engine) unsatisfiable(hyps []*Term) bool {
+	e.feasN++
+	if !e.deadline.IsZero() && time.Now().After(e.deadline) {
+		e.deadline = time.Time{}
+		e.fail("time budget for symbolic execution exceeded (feasibility checks)")
+	}
 	e.varN++
 	hs := append(append([]*Term{}, hyps...), bitUFFacts(hyps)...)
 	q := &Query{Name: fmt.Sprintf("feas_%s_%d", e.curFunc, e.varN), Hyps: hs, Goal: tFalse}
